@@ -136,7 +136,7 @@ CASE_VARIANTS = [0]
 
 
 class Gen(object):
-    def __init__(self, rng, home, features=None, events=False):
+    def __init__(self, rng, home, features=None, events=False, bare_constants=False):
         self.rng = rng
         self.home = home
         self.scopes = [dict()]      # name -> type: INT/STR/BOOL/REAL/ENUM, ('inst', K), ('set', K), ('array', t)
@@ -147,6 +147,7 @@ class Gen(object):
         self.home_params = HOME_EVENT_DATA.get(home, HOME_PARAMS)
         self.features = features    # None: everything
         self.events = events        # event statements (generate / create event instance)
+        self.bare_constants = bare_constants    # constants also by their bare name (C_INT for Consts::C_INT)
         self.decl_block = {}        # variable name -> statement node that declares it (for C06)
         self.retired = []           # names whose block has ended: free to be declared again
 
@@ -394,7 +395,11 @@ class Gen(object):
         if k < 0.48:
             cs = [c for c in CONSTS if c[1] == ty]
             if cs:
-                return T(om.enum('Consts', r.choice(cs)[0]), ty)
+                c = r.choice(cs)[0]
+                if self.bare_constants and r.random() < 0.4 and self.lookup(c) is None:
+                    om.STATS['bare-constant'] = om.STATS.get('bare-constant', 0) + 1
+                    return T(om.var(c), ty)
+                return T(om.enum('Consts', c), ty)
         if k < 0.56 and depth > 0:
             e = self.invocation(ty, depth, selected_kind)
             if e is not None:
@@ -411,6 +416,14 @@ class Gen(object):
         if ty == INT:
             op = r.choice(('+', '-', '*', '/', '%', 'neg', 'card'))
             if op == 'neg':
+                if r.random() < 0.3:
+                    hs = self.vars_of(lambda t: isinstance(t, tuple) and t[0] in ('inst', 'set'))
+                    if hs and r.random() < 0.6:
+                        inner = T(om.unary('cardinality', self.handle(r.choice(hs)[0])), INT)
+                    else:
+                        inner = T(om.unary('-', self.expr(INT, depth - 1, selected_kind)), INT)
+                    om.STATS['unary-over-unary'] = om.STATS.get('unary-over-unary', 0) + 1
+                    return T(om.unary('-', inner), INT)
                 return T(om.unary('-', self.expr(INT, depth - 1, selected_kind)), INT)
             if op == 'card':
                 hs = self.vars_of(lambda t: isinstance(t, tuple) and t[0] in ('inst', 'set'))
@@ -434,6 +447,15 @@ class Gen(object):
             return T(om.binary(op, self.udt_operand(BOOL, selected_kind) or self.expr(BOOL, depth - 1, selected_kind),
                                self.udt_operand(BOOL, selected_kind) or self.expr(BOOL, depth - 1, selected_kind)), BOOL)
         if op == 'not':
+            if r.random() < 0.3:
+                # a unary operator directly over another one (not empty h, not not_empty h, not not b)
+                hs = self.vars_of(lambda t: isinstance(t, tuple) and t[0] in ('inst', 'set'))
+                if hs and r.random() < 0.7:
+                    inner = T(om.unary(r.choice(('empty', 'not_empty')), self.handle(r.choice(hs)[0])), BOOL)
+                else:
+                    inner = T(om.unary('not', self.expr(BOOL, depth - 1, selected_kind)), BOOL)
+                om.STATS['unary-over-unary'] = om.STATS.get('unary-over-unary', 0) + 1
+                return T(om.unary('not', inner), BOOL)
             return T(om.unary('not', self.udt_operand(BOOL, selected_kind) or self.expr(BOOL, depth - 1, selected_kind)), BOOL)
         if op == 'streq':
             return T(om.binary(r.choice(('==', '!=')), self.expr(STR, depth - 1, selected_kind),
